@@ -58,11 +58,103 @@ def _is_local(frame: Frame, name: str) -> Optional[Frame]:
     return None
 
 
+_PROP_CACHE: Dict = {}
+
+
+def _stores(func) -> Dict[str, list]:
+    """name -> list of assigned values (None for a store that is not a
+    plain `name = value`), attribute paths assigned in the function"""
+    key = id(func.node)
+    if key in _PROP_CACHE:
+        return _PROP_CACHE[key]
+    names: Dict[str, list] = {}
+    attrs = set()
+    for n in walk_own(func.node):
+        if isinstance(n, ast.Assign):
+            for t in n.targets:
+                if isinstance(t, ast.Name):
+                    names.setdefault(t.id, []).append(
+                        n.value if len(n.targets) == 1 else None)
+                else:
+                    for x in ast.walk(t):
+                        if isinstance(x, ast.Name) and \
+                                isinstance(x.ctx, ast.Store):
+                            names.setdefault(x.id, []).append(None)
+                        if isinstance(x, ast.Attribute) and \
+                                isinstance(x.ctx, ast.Store):
+                            attrs.add(ast.unparse(x))
+        elif isinstance(n, (ast.AugAssign, ast.AnnAssign)):
+            t = n.target
+            if isinstance(t, ast.Name):
+                names.setdefault(t.id, []).append(None)
+            elif isinstance(t, ast.Attribute):
+                attrs.add(ast.unparse(t))
+        elif isinstance(n, (ast.For, ast.comprehension, ast.With,
+                            ast.ExceptHandler, ast.NamedExpr, ast.Delete,
+                            ast.Import, ast.ImportFrom)):
+            for x in ast.walk(n.target if hasattr(n, 'target') else n):
+                if isinstance(x, ast.Name) and isinstance(
+                        x.ctx, (ast.Store, ast.Del)):
+                    names.setdefault(x.id, []).append(None)
+            if isinstance(n, ast.ExceptHandler) and n.name:
+                names.setdefault(n.name, []).append(None)
+            if isinstance(n, ast.With):
+                for it in n.items:
+                    if it.optional_vars is not None:
+                        for x in ast.walk(it.optional_vars):
+                            if isinstance(x, ast.Name):
+                                names.setdefault(x.id, []).append(None)
+    _PROP_CACHE[key] = (names, attrs)
+    return _PROP_CACHE[key]
+
+
+def _propagated(owner: Frame, name: str):
+    """(expression, frame) that `name` of frame `owner` stands for, or
+    None."""
+    func = owner.ctx.func
+    names, attrs = _stores(func)
+    stores = names.get(name, [])
+    if name in func.params:
+        if stores:
+            return None                     # parameter re-bound
+        b = getattr(owner, 'bindings', {}).get(name)
+        if b is not None:
+            return b
+        return None
+    if len(stores) == 1 and stores[0] is not None:
+        v = stores[0]
+        x = v
+        while isinstance(x, ast.Attribute):
+            x = x.value
+        if isinstance(v, ast.Attribute) and isinstance(x, ast.Name) and \
+                x.id == func.self_name and ast.unparse(v) not in attrs:
+            return v, owner
+    return None
+
+
 class _Canon(ast.NodeTransformer):
+    depth = 0
+
     def __init__(self, frame: Frame):
         self.frame = frame
 
+    def _visit_comp(self, node):
+        # variables bound by the comprehension itself are bound variables of
+        # the expression, not locals of the frame
+        names = {x.id for g in node.generators for x in ast.walk(g.target)
+                 if isinstance(x, ast.Name)}
+        old = getattr(self, 'bound', frozenset())
+        self.bound = old | names
+        try:
+            return self.generic_visit(node)
+        finally:
+            self.bound = old
+    visit_ListComp = visit_SetComp = visit_GeneratorExp = \
+        visit_DictComp = _visit_comp
+
     def visit_Name(self, node):
+        if node.id in getattr(self, 'bound', ()):
+            return ast.Name(id=node.id, ctx=ast.Load())
         fr = self.frame
         sn = fr.ctx.func.self_name
         if node.id == sn:
@@ -71,6 +163,19 @@ class _Canon(ast.NodeTransformer):
             return ast.Name(id='self#%d' % fr.id, ctx=ast.Load())
         owner = _is_local(fr, node.id)
         if owner is not None:
+            # copy propagation, so that facts are phrased in one vocabulary:
+            # a parameter of an inlined callee that is never re-bound stands
+            # for the caller's argument; a local bound once to an attribute
+            # path of self that the function never assigns stands for it
+            if self.depth < 6 and not isinstance(
+                    getattr(node, 'ctx', None), (ast.Store, ast.Del)):
+                sub = _propagated(owner, node.id)
+                if sub is not None:
+                    ex, fr2 = sub
+                    c = _Canon(fr2)
+                    c.depth = self.depth + 1
+                    c.bound = getattr(self, 'bound', frozenset())
+                    return c.visit(copy.deepcopy(ex))
             return ast.Name(id='%s#%d' % (node.id, owner.id), ctx=ast.Load())
         return ast.Name(id=node.id, ctx=ast.Load())
 
@@ -625,6 +730,14 @@ class Facts:
                                 add.append((p, k2))
                             break
         out = frozenset(a for a in st if tag not in a[1]) | frozenset(add)
+        # a threaded call (the caller branches on the result): this
+        # continuation is the one on which the call was true / false
+        cls = n.extra.get('ret_class')
+        if cls is not None:
+            try:
+                out = out | frozenset([(cls == 'T', canon(n.ast, n.frame))])
+            except Exception:
+                pass
         return out
 
 
